@@ -330,7 +330,7 @@ func judge(what string, calls int, got, vals []reflect.Value, err error, legal [
 		return evid.Fail("calls", "%s ran the body %d times; %s", what, calls, desc)
 	}
 	if len(got) != len(legal) {
-		return evid.Fail("arity", "%s passed %d arguments, want %d; %s", what, len(got), len(legal), desc)
+		panic("the recorder saw another number of arguments than the function has parameters")
 	}
 	for i := range got {
 		if !legalArg(got[i], legal[i]) {
@@ -416,18 +416,9 @@ func checkFast(inj inject.Injector, k int, legal [][]reflect.Value, missing, des
 	if o := judge("Invoke(fast invoker)", fc, fg, fv, fe, legal, missing, fr, desc); o.Violation != "" {
 		return o
 	}
-	// both fail or both succeed; judge has already required each error to name
-	// the unresolvable type (the wording around it may mention the function type,
-	// which differs between the twins)
-	if (pe == nil) != (fe == nil) {
-		return evid.Fail("fast-vs-plain-error", "plain twin error %v, fast invoker error %v; %s", pe, fe, desc)
-	}
-	// where the resolution is unique both must have received the very same values
-	for i := range pg {
-		if len(legal[i]) == 1 && !same(pg[i], fg[i]) {
-			return evid.Fail("fast-vs-plain-args", "argument %d differs between the plain function and the fast invoker; %s", i, desc)
-		}
-	}
+	// (judge has held each twin against the same model: comparing them with each
+	// other again could never fail)
+	_, _ = pg, fg
 	return evid.Outcome{}
 }
 
@@ -473,8 +464,12 @@ func checkApply(inj inject.Injector, scopes []*mscope, op Op, desc string, class
 	if len(op.In)%2 == 1 {
 		// the struct itself (not a pointer to it) first: nothing in it can be set,
 		// which is not an error - and must not be remembered against the type
+		// (an implementation that answers "Apply needs a pointer" is not excluded
+		// by the statement either: only the Apply that follows is judged)
 		if verr := inj.Apply(target.Elem().Interface()); verr != nil {
-			return evid.Fail("apply-by-value", "Apply of a struct value (no field is settable) failed: %v; %s", verr, desc)
+			classes["apply-by-value-refused"] = true
+		} else {
+			classes["apply-by-value-first"] = true
 		}
 	}
 	err := inj.Apply(target.Interface())
@@ -510,19 +505,24 @@ func checkApply(inj inject.Injector, scopes []*mscope, op Op, desc string, class
 		if herr == nil {
 			return evid.Fail("apply-hidden", "Apply(hidden) succeeded without a *S1; %s", desc)
 		}
-	} else {
-		if herr != nil || !legalArg(reflect.ValueOf(h.Public), l1) || h.private != nil || h.Plain != nil {
-			return evid.Fail("apply-hidden", "Apply(hidden): err=%v Public=%v private=%v Plain=%v; %s", herr, h.Public, h.private, h.Plain, desc)
-		}
+	} else if herr != nil {
+		// the unexported field is not settable: skipping it silently and
+		// reporting it are both within the statement, which speaks of settable
+		// fields only
+		classes["apply-hidden-refused"] = true
+	} else if !legalArg(reflect.ValueOf(h.Public), l1) || h.private != nil || h.Plain != nil {
+		return evid.Fail("apply-hidden", "Apply(hidden): err=%v Public=%v private=%v Plain=%v; %s", herr, h.Public, h.private, h.Plain, desc)
 	}
 	h2 := &hidden2{}
 	herr2 := inj.Apply(h2)
 	if v1 == "unresolvable" {
-		if herr2 == nil || !strings.Contains(herr2.Error(), tPS1.String()) {
-			return evid.Fail("apply-hidden", "Apply(hidden2) without a *S1: error %v does not name the type; %s", herr2, desc)
+		if herr2 == nil {
+			return evid.Fail("apply-hidden", "Apply(hidden2) succeeded without a *S1; %s", desc)
 		}
-	} else if herr2 != nil || !legalArg(reflect.ValueOf(h2.Public), l1) || h2.private != nil {
-		return evid.Fail("apply-hidden", "Apply(hidden2): err=%v Public=%v private=%v (the unexported tagged field in front must only be skipped); %s", herr2, h2.Public, h2.private, desc)
+	} else if herr2 != nil {
+		classes["apply-hidden-refused"] = true
+	} else if !legalArg(reflect.ValueOf(h2.Public), l1) || h2.private != nil {
+		return evid.Fail("apply-hidden", "Apply(hidden2): err=%v Public=%v private=%v (an unexported tagged field in front: the settable one behind it must still be filled); %s", herr2, h2.Public, h2.private, desc)
 	}
 	return evid.Outcome{}
 }
@@ -642,9 +642,55 @@ func genCase(t *rapid.T) Case {
 			// a typed nil (an anonymous visitor's *User) is a value like any other
 			op.Nil = rapid.IntRange(0, 5).Draw(t, "typednil") == 0
 		}
+		if need := needs(op); len(need) > 1 && rapid.Bool().Draw(t, "provide") {
+			// a resolution with several parameters only succeeds when all of them
+			// can be found: half of the time they are provided first, spread over
+			// the scopes the resolution sees, so that long argument lists are
+			// filled rather than refused
+			for _, tn := range need {
+				pre := Op{K: "map", Scope: rapid.IntRange(0, op.Scope).Draw(t, "psc"), T: tn}
+				if tn == "<-chan" {
+					pre.K, pre.T, pre.As = "set", "chan", "<-chan"
+				} else if universe[tn].Kind() == reflect.Interface {
+					var impl []string
+					for _, cn := range concreteNames {
+						if implementsIface(cn, universe[tn]) {
+							impl = append(impl, cn)
+						}
+					}
+					pre.T = impl[rapid.IntRange(0, len(impl)-1).Draw(t, "pimpl")]
+					if rapid.Bool().Draw(t, "pmapto") {
+						pre.K, pre.As = "mapto", tn
+					}
+				}
+				if pre.K == "map" {
+					registered[pre.Scope] = append(registered[pre.Scope], pre.T)
+				}
+				c.Ops = append(c.Ops, pre)
+			}
+		}
 		c.Ops = append(c.Ops, op)
 	}
 	return c
+}
+
+// needs lists the types a resolving operation asks for.
+func needs(op Op) []string {
+	switch op.K {
+	case "invoke":
+		return op.In
+	case "fast":
+		return fastSigs[op.Fast]
+	case "apply":
+		var out []string
+		for i, tn := range op.In {
+			if op.Tag[i] {
+				out = append(out, tn)
+			}
+		}
+		return out
+	}
+	return nil
 }
 
 func TestInjector(t *testing.T) {
